@@ -1,3 +1,3 @@
 #!/bin/sh
 # dev helper: build and show only diagnostics of the harness itself
-cd /verif/harness && cargo build --release --message-format short 2>&1 | grep -v '^/repo/' | grep -v "warning: .rdest. (lib) generated" | tail -${1:-60}
+cd /verif/harness && cargo build --release --message-format short 2>&1 | grep -E '^(src/|error|\s+Finished|.*could not compile)' | tail -${1:-60}
